@@ -39,6 +39,10 @@ class Canon:
                     getattr(node.value.func, "id", None) == MEMO and isinstance(node.slice, ast.Constant) \
                     and node.slice.value == 2 and len(node.value.args) == 2:
                 return patom(("COST", pkey(pb.poly(node.value.args[0])), pkey(pb.poly(node.value.args[1]))))
+            if isinstance(node, ast.Subscript) and isinstance(node.value, ast.Call) and \
+                    getattr(node.value.func, "id", None) == MEMO and isinstance(node.slice, ast.Constant) \
+                    and node.slice.value in (0, 1) and len(node.value.args) == 2:
+                return patom((("KIND", "LEN")[node.slice.value], pkey(pb.poly(node.value.args[0])), pkey(pb.poly(node.value.args[1]))))
             if isinstance(node, ast.Subscript) and isinstance(node.value, ast.Name) and node.value.id == "m" \
                     and isinstance(node.slice, ast.Constant) and node.slice.value == 2:
                 return patom("RES_COST")
@@ -51,6 +55,10 @@ class Canon:
                     if pkey(pa) == pkey(patom("n")) and pkey(pb_) == pkey(patom("s")):
                         return patom("RES_COST")
                     return patom(("COST", pkey(pa), pkey(pb_)))
+                if isinstance(c, ast.Constant) and c.value in (0, 1):
+                    # the kind / step-length component of another entry: canonical too, so that a recurrence that
+                    # consults it is recognised as different from one that does not
+                    return patom((("KIND", "LEN")[c.value], pkey(pb.poly(a)), pkey(pb.poly(b))))
             if isinstance(node, ast.Name) and node.id in self.consts:
                 return patom(self.consts[node.id])
         if isinstance(node, ast.Attribute) and isinstance(node.value, ast.Name) and node.value.id == "StepType":
@@ -356,9 +364,39 @@ def run(chk, ctx):
         chk.decide("C16.REC", "mixed#recurrence", True,
                    f"canonical programs identical ({ncase} case/candidate nodes): {show(tbody)[:300]}", rel=REL, node=core[1])
     else:
+        def atoms_of(x):
+            """atom names of a canonical subtree (polynomial keys are tuples of (monomial, coefficient))"""
+            out = set()
+            if isinstance(x, tuple):
+                for y in x:
+                    out |= atoms_of(y)
+            elif isinstance(x, str):
+                out.add(x)
+            return out
+
+        def understood(x):
+            # a leaf is fully understood if it is built from the canonical vocabulary only: n, s, i, the cost of a
+            # sub-problem, the cost of the current result, step kinds, operators and node tags
+            ok_words = {"n", "s", "i", "RES_COST", "RES_UNSET", "COST", "LEN", "KIND", "max", "min", "floordiv", "inv", "triple", "res", "if", "for", "or", "and",
+                        "store", "<", "<=", "==", "!=", "?"}
+            known_names = {"n", "s", "i", "n_i", "s_i", "schedule", "max", "min", "int", "abs", MEMO, "StepType"} | set(consts)
+            for a in atoms_of(x):
+                if a in ok_words or a.startswith(("StepType.", "COST(", "LEN(", "KIND(", "floordiv(")):
+                    continue
+                # a leaf kept as source text: understood if it only speaks about the table, the loop variables and
+                # builtins - not about a local that may be another name for something canonical
+                try:
+                    tree = ast.parse(a, mode="eval")
+                except SyntaxError:
+                    return False
+                if any(isinstance(t, ast.Name) and t.id not in known_names for t in ast.walk(tree)):
+                    return False
+            return True
         for path, a, b, kind in d[:4]:
-            chk.decide("C16.REC", "mixed#recurrence", False if kind == "leaf" else None,
-                       f"planners differ at {path or '/'}: memoised {show(a)[:160]}  vs  tabulated {show(b)[:160]}",
+            definite = kind == "leaf" and understood(a) and understood(b)
+            chk.decide("C16.REC", "mixed#recurrence", False if definite else None,
+                       f"planners differ at {path or '/'}: memoised {show(a)[:160]}  vs  tabulated {show(b)[:160]}"
+                       + ("" if definite or kind != "leaf" else " [not definite: a side mentions names outside the canonical vocabulary]"),
                        rel=REL, node=core[1])
     # loop ranges of the table cover the domain n in [2, n], s in [1, s]
     want = {"s_i": (pkey(pconst(1)), pkey(padd(patom("s"), pconst(1)))),
